@@ -23,11 +23,11 @@ LAWS = ["LawModRM", "LawRex", "LawSign", "LawDisp", "LawTable", "LawDecodeEncode
 
 
 # ---------------------------------------------------------------- idiom M
-def laws(ctx, fams, deep, workers=8, which=None):
+def laws(ctx, fams, deep, workers=8, which=None, coverage=True):
     """Model-check X64.tla itself.  A failing law is a defect of the specification: machinery failure."""
     cfg = "CONSTANT Deep = %s\nCONSTANT Fams = {%s}\n" % ("TRUE" if deep else "FALSE", ", ".join('"%s"' % f for f in fams))
     cfg += CFG + "".join("INVARIANT %s\n" % x for x in (which or LAWS))
-    res = ctx.tlc("X64_MC", cfg, label="M: laws of X64.tla on %s" % "/".join(fams), workers=workers)
+    res = ctx.tlc("X64_MC", cfg, label="M: laws of X64.tla on %s" % "/".join(fams), workers=workers, coverage=coverage)
     for e in res.errors:
         raise tlcmod.MachineryError("a law of X64.tla fails in the specification itself: %s\n%s\n%s" % (
             e, e.text[:1500], e.last))
@@ -294,7 +294,9 @@ def enumerate_instances(cls, rng, level):
             for r in reg_pool(s.cls):
                 x = dict(base)
                 x[s.path] = r
-                yield inst(x, "sweep.%s" % ".".join(s.path))
+                y = inst(x, "sweep.%s" % ".".join(s.path))
+                y["swept"] = r.num if len(reg_pool(s.cls)) > 8 else None
+                yield y
         if level >= 1 and len(rslots) > 1:
             pools = [reg_pool(s.cls) for s in rslots]
             for j in range(max(len(p) for p in pools)):
@@ -405,6 +407,9 @@ def enc_records(prop, rng, thorough, only_classes=None):
     return recs, skipped
 
 
+QUICK_RW_REGS = (0, 1, 3, 4, 5, 8, 12, 13, 15)
+
+
 def _names(regs):
     return [str(getattr(r, "name", r)) for r in regs]
 
@@ -422,6 +427,8 @@ def rw_records(prop, rng, thorough, only_classes=None):
             continue
         if it["tag"].split(".")[0].split("-")[0] in ("disp", "addr", "imm", "address", "distance"):
             continue  # the register sets do not depend on the integer operands: the default value of each is enough
+        if not thorough and it["tag"].startswith("sweep.") and it.get("swept") is not None and it["swept"] not in QUICK_RW_REGS:
+            continue  # quick tier: the register sweeps of the 16-register files visit half of the numbers
         try:
             uses, defs, clob = _names(ins.used_registers), _names(ins.defined_registers), _names(getattr(ins, "clobbers", []))
         except Exception as e:
@@ -855,7 +862,9 @@ def c07_part(ctx, thorough):
                "flags are fixed implicit state; a partial write (al, ax, movss xmm, xmm) is not a read of the full register")
     if mine is None:
         # (the laws of the decoder itself are checked by C08; here: the table, the register-set laws and the known answers)
-        laws(ctx, ["tab", "enc", "kat"], thorough, which=["LawTable", "LawRegSets", "LawKat", "LawRwKat"])
+        # quick: the known answers only (C08's quick run checks LawRegSets on every table entry x instance as well)
+        laws(ctx, ["tab", "enc", "kat"] if thorough else ["tab", "kat"], thorough, which=["LawTable", "LawRegSets", "LawKat", "LawRwKat"],
+             coverage=thorough)  # (-coverage multiplies the cost of the constant tables; C08's run records the action coverage)
     recs, skipped = rw_records("C07", _rng(ctx, 64), thorough)
     n = sum(skipped.values())
     if n:
